@@ -556,6 +556,9 @@ def run(prog, chk, tier):
                        "entry, compared strictly with 117; an emptiness abstract interpretation (E/N/U per byte string, closed/last summary of the block list, disjunctive loop "
                        "fixpoint) proves that no closed block is empty and an empty last block is removed; set_config frames `len || block`* 00 with declared length and the "
                        "documented tags. For enumerated dictionaries with symbolic contents the blocks are decoded by an independent decoder and compared with the dictionary's operations.")
+    from rules import state as _state
+
+    _state.library_state_rules(prog, chk, "C10")
     ordering_rules(prog, chk, "C10")
     part_rules(prog, chk, "C10")
     emptiness_rule(prog, chk, "C10")
